@@ -190,7 +190,7 @@ func runC01(r *Run) {
 	if fn := r.Fn("trillian/ctfe.GetCTLogID"); fn != nil {
 		for _, ret := range Returns(fn) {
 			if errKind(ret.Results[1]) == "nil" {
-				r.Check("GetCTLogID:value", r.D.D(ret.Results[0]) == "sha256.Sum256(x509.MarshalPKIXPublicKey(~)#0)", r.Where(ret), "log ID = "+r.D.D(ret.Results[0]))
+				r.Check("GetCTLogID:value", glob("sha256.Sum256(x509.MarshalPKIXPublicKey(p0)#0)", r.D.D(ret.Results[0])), r.Where(ret), "log ID = "+r.D.D(ret.Results[0]))
 			}
 		}
 		if c := r.OneCall(fn, "GetCTLogID:marshal", "x509.MarshalPKIXPublicKey"); c != nil {
